@@ -97,6 +97,9 @@ func c14GenRepo(r *rand.Rand, n int, firstID int) []c14Rec {
 		case t < 6:
 			enc := byte(r.Intn(4))
 			nb := r.Intn(17) // bytes of ID string
+			if r.Intn(5) == 0 {
+				nb = 17 + r.Intn(5) // longer than the specification's 16, still within the 64-byte record body
+			}
 			nchars := nb
 			switch enc {
 			case 1:
@@ -111,7 +114,7 @@ func c14GenRepo(r *rand.Rand, n int, firstID int) []c14Rec {
 				}
 			}
 			body, want, _ := genFSR(r, enc, nchars)
-			if len(body) > 59 {
+			if len(body) > 64 {
 				body, want, _ = genFSR(r, 3, 16)
 			}
 			rc = c14Rec{rec: refbmc.SDRRecord{ID: id, Type: 0x01, Body: body}, want: want}
@@ -157,7 +160,7 @@ func c14Exec(run *ev.Run, c ev.Case) {
 			// one repository, every injection point of its walk, one fault kind per case
 			n := 2 + r.Intn(5)
 			first := []int{0, -1, 5}[b.From%3]
-			faults := []string{"cancel", "modify-add", "modify-erase", "modify-replace", "ts-only", "double", "info-modify", "ts-only-erase", "ts-only-erase"}
+			faults := []string{"cancel", "modify-add", "modify-erase", "modify-replace", "ts-only", "double", "info-modify", "ts-only-erase", "cancel-only-renumber"}
 			f := faults[b.From%len(faults)]
 			// the walk issues at most 2 Get SDR per record
 			for at := 1; at <= 2*n+1; at++ {
@@ -252,6 +255,11 @@ func c14One(run *ev.Run, p c14P) {
 			modify(rp, "replace", false)
 		case "ts-only-erase":
 			modify(rp, "erase", false)
+		case "cancel-only-renumber":
+			// contents and record IDs change, the reservation is cancelled, the timestamps stay
+			rp.KeepStamps = true
+			modify(rp, []string{"erase", "replace", "add"}[p.At%3], true)
+			rp.KeepStamps = false
 		case "double":
 			if second {
 				rp.CancelLocked()
